@@ -33,12 +33,12 @@ func init() {
 
 func c03Decls() ([]*OptDecl, []*ArgDecl) {
 	return []*OptDecl{
-			{Names: []string{"a", "aa"}, Flag: true},
-			{Names: []string{"b"}, Flag: true},
-			{Names: []string{"o", "out"}},
-			{Names: []string{"p"}, Multi: true},
-			{Names: []string{"e", "env-x"}},
-		}, []*ArgDecl{{Name: "X", Multi: true}, {Name: "Y", Multi: true}}
+		{Names: []string{"a", "aa"}, Flag: true},
+		{Names: []string{"b"}, Flag: true},
+		{Names: []string{"o", "out"}},
+		{Names: []string{"p"}, Multi: true},
+		{Names: []string{"e", "env-x"}},
+	}, []*ArgDecl{{Name: "X", Multi: true}, {Name: "Y", Multi: true}}
 }
 
 var c03Frags = []string{"[", "]", "(", ")", "|", "...", "-a", "--aa", "-o", "--out", "-ab", "-e", "OPTIONS", "X", "Y", "--", "-- ", " ", "\t", "=<x>", "-", ".", "=", "<", ">", "-z", "Q", "_", "1",
